@@ -208,6 +208,8 @@ def convert_events(evs, attach_calls=True):
             iv = e["interval"]
             e["interval"] = 2147483647 if iv == "never" else 60 if iv == "default" else int(iv)
             e["fnfilter"] = [] if e["fnfilter"] == "-" else list(e["fnfilter"].encode())
+        if e.get("e") == "FsPartition":
+            e["chars"] = hex2ints(e["chars"])
         if e.get("e") == "SetFile":
             d = os.path.dirname(e["path"])
             e["abs"] = [os.path.normpath(n if n.startswith("/") else os.path.join(d, n)) for n in e["names"]]
